@@ -168,6 +168,7 @@ def _last_attr(e: ast.expr) -> str:
 
 
 def run(prog: Program, ctx: Ctx) -> None:  # noqa: PLR0912,PLR0915
+    _PROG[0] = prog
     cg = CallGraph(prog)
 
     # ------------------------------------------------------------------ R1
@@ -664,27 +665,37 @@ def _edge_guarded(prog: Program, cg: CallGraph, e: Edge, cset: set[str], edges) 
 
 
 def _mro_idiom(f: FunctionInfo, e: Edge) -> tuple[bool, str]:
-    seen_param = None
-    for p in f.params:
-        adds = _adds(f, p)
-        if adds and any(unparse(el) == "self.path" for _n, el in adds):
-            seen_param = p
-    if seen_param is None:
-        return False, "_mro does not extend its `seen` tuple with self.path"
-    call = e.site
-    if not (isinstance(call, ast.Call) and call.args and unparse(call.args[0]) == seen_param):
-        return False, "_mro does not pass the extended `seen` on"
-    comp = next((a for a in ancestors(call) if isinstance(a, (ast.ListComp, ast.GeneratorExp))), None)
-    if comp is None:
-        return False, "recursive call not in a comprehension over the bases"
-    it = unparse(comp.generators[0].iter)
-    for loop in walk_no_nested(f.node):
-        if isinstance(loop, ast.For) and unparse(loop.iter) == it and loop.lineno < call.lineno:
-            tv = unparse(loop.target)
-            for n in ast.walk(loop):
-                if isinstance(n, ast.If) and any(isinstance(r, ast.Raise) for r in n.body):
-                    for atom, truth in implied(n.test, True):
-                        if isinstance(atom, ast.Compare) and isinstance(atom.ops[0], ast.In) and truth and unparse(atom.comparators[0]) == seen_param \
-                                and unparse(atom.left) == f"{tv}.path":
-                            return True, f"every base in `{it}` is checked against `{seen_param}` (raise ValueError on a repeat) before recursing"
-    return False, "no loop over the bases raises on a base already seen"
+    """The recursion of Class._mro over the bases, decided on behaviour: mro() evaluated on every inheritance cycle over up to three classes (a class
+    that is its own base, two and three classes in a ring, a ring below a chain, a ring among several bases) raises ValueError within the step budget."""
+    from sa.absint import DepthLimit, Interp, Obj, Raised, StepLimit
+
+    prog = _PROG[0]
+    it = Interp(prog, max_depth=80, max_steps=200_000)
+    ccls = prog.cls("_griffe.models.Class")
+    mro_fn = prog.lookup_method(ccls, "mro")[0]
+    shapes = {
+        "a class that is its own base": {"A": ["A"]},
+        "two classes in a ring": {"A": ["B"], "B": ["A"]},
+        "three classes in a ring": {"A": ["B"], "B": ["C"], "C": ["A"]},
+        "a ring below the class": {"A": ["B"], "B": ["C"], "C": ["B"]},
+        "a ring among several bases": {"A": ["D", "B"], "B": ["A"], "D": []},
+    }
+    for label, g in shapes.items():
+        objs = {n: Obj(ccls, {"name": n, "path": f"m.{n}", "is_class": True, "is_alias": False, "members": {}, "parent": None}, label=n) for n in g}
+        for n, bases in g.items():
+            objs[n].attrs["resolved_bases"] = [objs[b] for b in bases]
+        it.steps = 0
+        try:
+            got = it.call(mro_fn, objs["A"])
+            return False, f"{label}: mro() returns {[c.attrs['name'] for c in got]} instead of raising ValueError"
+        except Raised as r:
+            if r.exc != "ValueError":
+                return False, f"{label}: mro() raises {r.exc}"
+        except (StepLimit, DepthLimit, RecursionError):
+            return False, f"{label}: mro() recurses without end (no base already being linearised is refused)"
+    return True, f"mro() raises ValueError on every inheritance cycle tried ({len(shapes)} shapes over up to three classes): the recursion over the bases is cut"
+
+
+_PROG: list = [None]
+
+
